@@ -2,6 +2,7 @@ import PytypeModel.Proofs.PlanSched
 import PytypeModel.Proofs.PlanTotal
 import PytypeModel.Proofs.PlanNinja
 import PytypeModel.Proofs.PlanGraph
+import PytypeModel.Proofs.PlanGraphStub
 
 /-! # C19 — the whole-project build plan orders every analysis after the stubs it reads
 
@@ -197,6 +198,20 @@ theorem graph_checked_once (req : List Nat) (nodes : List GNode) (ht : topo node
   obtain ⟨g, hg, hmg⟩ := List.mem_flatMap.1 hm
   exact (checked_once req _ (graph_wf nodes hn) p hp).1 g hg m hmg hreq hgen
 
+/-- Functional specification of the stage, sound and complete: for every node of the graph that has sources there is a
+group with exactly those sources whose deps are **exactly** (`DepSpec`) the sources among the files of the node's dep
+nodes together with everything the type stubs among them stand for (`StubSrc`: transitively, through chains of stubs)
+— nothing a stub hides is dropped, nothing else is added.  Premises: the node list is in dependency order and every
+stub is a file of one node (both decidable, evaluated by the driver on every graph of the correspondence run). -/
+theorem graph_deps_exact (nodes : List GNode) (ht : topo nodes = true) (hs : stubsDistinct nodes = true)
+    (i : Nat) (n : GNode) (hn : nodes[i]? = some n) (hne : sourcesOf n.files ≠ []) :
+    ∃ g ∈ depsFromGraph nodes, g.1 = sourcesOf n.files ∧ ∀ m, m ∈ g.2 ↔ DepSpec nodes n m := by
+  have hi : i < nodes.length := by
+    rcases Nat.lt_or_ge i nodes.length with h | h
+    · exact h
+    · simp [List.getElem?_eq_none h] at hn
+  exact (depsFromGraph_spec ht hs).outs i n hi hn hne
+
 /-! ### escaping -/
 
 /-- `escape_ninja_path` leaves no unescaped space, colon, `$` or newline — for every string. -/
@@ -347,6 +362,11 @@ with a source and a stub), with `mD` underneath and `mC` on top importing only t
 def demoNodes : List GNode :=
   [⟨[.src mS], []⟩, ⟨[.src mD], [0]⟩, ⟨[.stub 7], [1]⟩, ⟨[.src mA, .stub 8, .src mB], [2, 0]⟩, ⟨[.src mC], [3]⟩]
 example : topo demoNodes = true := by decide
+example : stubsDistinct demoNodes = true := by decide
+/-- `mC` only imports the mixed node, yet it inherits `mD` through the stub chain 8 → 7 → `mD` -/
+example : StubSrc demoNodes 8 mD :=
+  .via (i := 3) (j := 2) (k' := 7) rfl (by decide) (by decide) rfl (by decide)
+    (.direct (i := 2) (j := 1) (k := 7) (m := mD) rfl (by decide) (by decide) rfl (by decide))
 example : ((graphSources demoNodes).map (·.id)).Nodup := by decide
 example : depsFromGraph demoNodes =
     [([mS], []), ([mD], [mS]), ([mA, mB], [mS, mD]), ([mC], [mA, mB, mS, mD])] := by decide
